@@ -68,6 +68,8 @@ pub struct ConnRec {
     pub h2: bool,
     pub created_step: u64,
     pub closed_step: Option<u64>,
+    /// wall-clock instant of the close (real-thread engine only)
+    pub closed_instant: Option<Instant>,
     /// h1: a request is in flight / its response body has not been consumed
     pub busy: bool,
     pub busy_req: Option<usize>,
@@ -78,6 +80,7 @@ pub struct ConnRec {
     pub ready_instant: Option<Instant>,
     pub released_step: Option<u64>,
     pub handoffs: u32,
+    pub last_handoff_step: Option<u64>,
     pub live_handles: u32,
     pub dropped_step: Option<u64>,
     pub ready_waker: Option<Waker>,
@@ -224,6 +227,10 @@ pub struct World {
     pub jitter: u32,
     pub offers: Vec<Offer>,
     pub last_activity: Option<Instant>,
+    /// two configured origins differ only in letter case: whether a pool treats them as one origin (host names are
+    /// case-insensitive) or as two (keys as written) is its choice, so "must share / must reuse" obligations are
+    /// not judged in such a world; "must not share" (C06) is
+    pub ambiguous_spelling: bool,
     /// real-thread stress mode: dials, handshakes, responses and bodies resolve by themselves
     pub auto: Option<AutoCfg>,
 }
@@ -271,8 +278,11 @@ pub fn origin_norm(origin: &str) -> String {
 
 impl World {
     pub fn new(cfg: LabConfig) -> World {
+        let exact: Vec<String> = cfg.origins.iter().map(|o| o.uri.clone()).collect();
+        let ambiguous_spelling = exact.iter().enumerate().any(|(i, a)| exact.iter().skip(i + 1).any(|b| a != b && a.eq_ignore_ascii_case(b)));
         World {
             step: 0,
+            ambiguous_spelling,
             cfg,
             dials: vec![],
             hss: vec![],
@@ -581,6 +591,7 @@ impl Future for HsFuture {
                     h2,
                     created_step: step,
                     closed_step: None,
+                    closed_instant: None,
                     busy: false,
                     busy_req: None,
                     holders: 0,
@@ -589,6 +600,7 @@ impl Future for HsFuture {
                     ready_instant: None,
                     released_step: None,
                     handoffs: 0,
+                    last_handoff_step: None,
                     live_handles: 1,
                     dropped_step: None,
                     ready_waker: None,
